@@ -67,8 +67,8 @@ where
             // Check methods (e.g.: return type of async methods)
             check_methods(&ast, &mut fr.diagnostics);
 
-            // Sort diagnostics by line
-            fr.diagnostics.sort_by_key(|d| d.range.start.line_col.0);
+            // Sort diagnostics by position (line, column)
+            fr.diagnostics.sort_by_key(|d| d.range.start.line_col);
 
             (
                 id,
